@@ -64,7 +64,10 @@ TStep ==
   /\ l' = l + 1
   /\ LET t == Trace[l] IN
      /\ viol' = viol \cup ObsViol(pending)
-     /\ pending' = IF t.ev \in {"reset", "end"} THEN None ELSE [line |-> l, obs |-> t[Which], err |-> IF Which = "b" THEN t.err ELSE ""]
+                       \* a log far beyond what the operators above can enumerate (a write burst of ~10^5 entries compacted by
+                       \* one snapshot): the Badger store's answers at the boundaries are compared with the reference's directly
+                       \cup (IF t.ev = "long" /\ Which = "b" /\ (t.lb # t.lm \/ t.err # "") THEN {<<l, "LongLog">>} ELSE {})
+     /\ pending' = IF t.ev \in {"reset", "end", "long"} THEN None ELSE [line |-> l, obs |-> t[Which], err |-> IF Which = "b" THEN t.err ELSE ""]
      /\ Apply(t)
      /\ UNCHANGED <<nops, lastop>>
 TSpec == TInit /\ [][TStep]_tvars
